@@ -1149,12 +1149,45 @@ def emit_expand(res):
     return "\n".join(lines)+"\n"
 
 
+# ---------------------------------------------------------------- whole C functions (tools/cfun.py)
+CDIST_FUNCS = [("dtw_distance", False), ("dtw_distance_ndim", True), ("dtw_distance_euclidean", False),
+               ("dtw_distance_ndim_euclidean", True)]
+
+
+def emit_cdist():
+    import cfun
+    d = os.path.join(REPO, "src/DTAIDistanceC/DTAIDistanceC")
+    src = open(os.path.join(d, "dd_dtw.c")).read()
+    hdr = open(os.path.join(d, "dd_dtw.h")).read()
+    alld = []
+    try:
+        for fn, nd in CDIST_FUNCS:
+            b = {"s1": "l1 * ndim", "s2": "l2 * ndim"} if nd else {"s1": "l1", "s2": "l2"}
+            alld.extend(cfun.translate_function(src, hdr, fn, b))
+    except cfun.TranslateError as exc:
+        raise TranslateError("cfun: %s" % exc)
+    check_fv([(name, [p for p, _ in params], text) for name, params, ret, text in alld])
+    return ("(* GENERATED by tools/translate_c.py (tools/cfun.py) from src/DTAIDistanceC/DTAIDistanceC/dd_dtw.c -- do not edit *)\n"
+            "(* the four dtw_distance* kernels translated WHOLE: one definition per function, one per loop body *)\n"
+            "From Coq Require Import ZArith Bool List.\nFrom DV Require Import Prelude Cost CLang.\nImport ListNotations.\n"
+            "Open Scope Z_scope.\nOpen Scope bool_scope.\n\n" + cfun.render(alld))
+
+
+def write_gen(outdir, fname, text):
+    os.makedirs(outdir, exist_ok=True)
+    p = os.path.join(outdir, fname)
+    old = open(p).read() if os.path.exists(p) else None
+    if old != text:
+        open(p, "w").write(text)
+
+
 def coq_str_list(xs):
     return "[" + "; ".join('"%s"' % x for x in xs) + "]"
 
 
 def _main():
     outdir = sys.argv[1] if len(sys.argv) > 1 else "/verif/coq/gen"
+    write_gen(outdir, "Gen_cdist.v", emit_cdist())
     try:
         text = emit_loc(analyse_loc())
     except (TranslateError, OSError) as exc:
